@@ -8,10 +8,6 @@ def knownSiteLeak (s : Site) (x : Cls) : Bool :=
   match s with
   -- str() of an int with more than 4300 digits
   | .output | .cycle_item | .include_name | .contains_in_str => x == int_giant
-  -- islice() with a negative stop (`limit: -1`)
-  | .for_limit | .tablerow_limit => x == int_neg || x == float_neg || x == str_negint
-  -- `x in d` with an unhashable x
-  | .contains_in_dict => x.isList || x.isDict
   | _ => false
 
 theorem table_sites :
